@@ -83,6 +83,8 @@ def datakey(d):
     """Identity-free, field-wise comparable key of a data object (type included)."""
     if type(d) is str:
         return ("str", d)
+    if isinstance(d, Lab):
+        return ("Lab", d.text)
     if isinstance(d, Rec):
         return ("Rec", d.name, d.size)
     if isinstance(d, Ent):
@@ -157,6 +159,23 @@ def reckind_de(parent, data):
     return Rec(data["name"], data["size"])
 
 
+@dataclass(frozen=True)
+class Lab:
+    """A one-field value object: its serialize mapper stores it under the entry's own key 'str' (so the entry looks like a
+    plain string node's), its load mapper rebuilds it from there."""
+
+    text: str
+
+
+def lab_ser(node, data):
+    data["str"] = node.data.text
+    return data
+
+
+def lab_de(parent, data):
+    return Lab(data["str"])
+
+
 def str_de(parent, data):
     """Callback for string trees whose entries are dicts ({'str':..., 'data_id':...})."""
     return data["str"]
@@ -227,6 +246,7 @@ def _size_of(label):
 
 mk_str = _memo(lambda lab: lab)
 mk_rec = _memo(lambda lab: Rec(lab, _size_of(lab)))
+mk_lab = _memo(lambda lab: Lab(lab))
 mk_ent = _memo(lambda lab: Ent("n_" + lab, "{g-" + lab + "}"))
 mk_dw = _memo(lambda lab: DictWrapper({"name": lab}))
 
@@ -314,6 +334,11 @@ _fam("recshort", new_tree=lambda: Tree("T"), load_cls=Tree, typed=False, mk=mk_r
 _fam("reckind", new_tree=lambda: TypedTree("T"), load_cls=TypedTree, typed=True, mk=mk_rec, save_mapper=reckind_ser, load_mapper=reckind_de,
      key_custom={"name": "n", "kind": "K"}, value_custom=lambda L: {"custom": {"kind": ["k2", "zz", "k1"]}, "custom_nokind": {"name": _vals(L)}},
      style="callback mappers, the load mapper reads the entry's stored kind")
+_fam("labtyped", new_tree=lambda: TypedTree("T"), load_cls=TypedTree, typed=True, mk=mk_lab, save_mapper=lab_ser, load_mapper=lab_de,
+     key_custom={"str": "S", "kind": "K"}, value_custom=lambda L: {"custom": {"kind": ["k2", "zz", "k1"], "str": _vals(L)}, "custom_nokind": {"str": _vals(L)}},
+     style="callback mappers storing an object under the entry's own key 'str'")
+_fam("lab", new_tree=lambda: Tree("T"), load_cls=Tree, typed=False, mk=mk_lab, save_mapper=lab_ser, load_mapper=lab_de,
+     key_custom={"str": "S", "data_id": "D"}, value_custom=lambda L: {"custom": {"str": _vals(L)}}, style="callback mappers storing an object under the entry's own key 'str'")
 _fam("dw", new_tree=lambda: Tree("T"), load_cls=Tree, typed=False, mk=mk_dw, save_mapper=DictWrapper.serialize_mapper,
      load_mapper=DictWrapper.deserialize_mapper, key_custom={"name": "n"}, value_custom=lambda L: {"custom": {"name": _vals(L)}},
      style="DictWrapper class mappers as callbacks")
@@ -751,6 +776,7 @@ def case_list(tier: str):
     out += [("recpop", s) for s in gen.plain_specs(N - 2)] + [("recpop", s) for s in idclone_specs(N - 1, ids=("id7", 0))]
     out += [("recpoptyped", s) for s in idclone_specs(N - 2, typed=True)]
     out += [("reckind", s) for s in gen.typed_specs(N - 2)]
+    out += [("labtyped", s) for s in gen.typed_specs(N - 2)] + [("lab", s) for s in gen.plain_specs(N - 2)]
     out += [("recnest", s) for s in gen.plain_specs(N - 2)] + [("recnest", s) for s in idclone_specs(N - 2)]
     out += [("recshort", s) for s in gen.plain_specs(N - 2)] + [("recshort", s) for s in idclone_specs(N - 2)]
     out += [("dw", s) for s in gen.plain_specs(N - 1)]
@@ -761,7 +787,7 @@ def case_list(tier: str):
     out += [("fs", s) for s in gen.plain_specs(N - 1)]
     # trees reached by a history (all accessors evaluated, then one change) and larger trees
     hb = N - 2
-    out += [("str", s) for s in gen.history_specs(gen.plain_specs(hb))] + [("typed", s) for s in gen.history_specs(gen.typed_specs(hb - 1, min_n=1))]
+    out += [("str", s) for s in gen.history_specs(gen.plain_specs(hb))] + [("typed", s) for s in gen.history_specs(gen.typed_specs(hb - 1, min_n=1)) if all(r[3] in ("k1", "k2") for r in s.nodes)]  # (a copy made by the history has the default kind 'child' -- finding F15 --, which the custom kind value lists of this family do not name: such a save is refused by design)
     out += [("rec", s) for s in gen.history_specs(gen.plain_specs(hb))]
     nb = 4 if tier == "quick" else 24
     out += [("str", s) for s in gen.big_specs(5, nb, lo=18, hi=40)] + [("typed", s) for s in gen.big_specs(6, nb, lo=18, hi=40, typed=True)] + [("rec", s) for s in gen.big_specs(7, nb, lo=18, hi=40)]
